@@ -42,6 +42,7 @@ func newGitRepo(tree map[string]gen.File, initial wtree) (*gitRepo, error) {
 		"PATH=" + os.Getenv("PATH"), "HOME=" + home, "GIT_CONFIG_NOSYSTEM=1", "GIT_CONFIG_GLOBAL=/dev/null", "LC_ALL=C", "TZ=UTC",
 		"GIT_AUTHOR_NAME=Sim", "GIT_AUTHOR_EMAIL=sim@example.com", "GIT_COMMITTER_NAME=Sim", "GIT_COMMITTER_EMAIL=sim@example.com",
 		"GIT_AUTHOR_DATE=1600000000 +0000", "GIT_COMMITTER_DATE=1600000000 +0000", "GIT_TERMINAL_PROMPT=0",
+		"GIT_CONFIG_COUNT=2", "GIT_CONFIG_KEY_0=gc.auto", "GIT_CONFIG_VALUE_0=0", "GIT_CONFIG_KEY_1=maintenance.auto", "GIT_CONFIG_VALUE_1=false",
 	}
 	if err := os.MkdirAll(g.dir, 0o755); err != nil {
 		g.close()
